@@ -114,6 +114,26 @@ def patch_math_names(mod):
         d['log'] = sx_log
 
 
+NO_ORDER_MODULES = {'electrumx.server.history', 'electrumx.server.db'}
+
+
+def sx_sorted_unordered(iterable, **kw):
+    '''sorted() for the batch-building loops of history.py / db.py: when the keys are symbolic
+    byte strings the items are returned in insertion order instead of forking over every
+    ordering.  Sound for loops whose iterations commute (puts/deletes of distinct keys into one
+    atomic batch) - recorded as an assumption in the evidence.'''
+    items = list(iterable)
+    if kw or not any(isinstance(i, SBytes) and not i.is_concrete() for i in items):
+        return builtins.sorted(items, **kw)
+    eng = engine()
+    if eng is not None:
+        eng.assumptions_used.add(
+            'sorted() over symbolic keys in History.flush / History.backup / DB.flush_utxo_db iterates in '
+            'insertion order (the loop bodies put/delete distinct keys into one atomic batch, so their order '
+            'is immaterial)')
+    return items
+
+
 def sx_join(sep, items):
     items = list(items)
     if not any(isinstance(i, SBytes) for i in items):
@@ -494,6 +514,8 @@ class _Loader(importlib.machinery.SourceFileLoader):
         d['bytearray'] = sx_bytearray
         d['memoryview'] = sx_memoryview
         d['isinstance'] = sx_isinstance
+        if module.__name__ in NO_ORDER_MODULES:
+            d['sorted'] = sx_sorted_unordered
         super().exec_module(module)
         patch_math_names(module)
         patch_struct_names(module)
